@@ -28,7 +28,7 @@ def run(ck):
     for g in P:
         g = dict(g); g["calls"] = calls_for(len(g["vals"])); groups.append(g)
     rng = ck.rng
-    for i in range(300 if q else 4000):
+    for i in range(300 if q else 12000):
         n = rng.randint(2, 12)
         kind = i % 4
         if kind == 0:
